@@ -83,7 +83,7 @@ def check_theorems(prop: str, theorems: Dict[str, List[str]], extra_targets: Opt
     t0 = time.time()
     res = {"obligations": 0, "discharged": 0, "broken": [], "theorems": {}, "checker_cmd": ""}
     mods = list(theorems)
-    targets = mods + ["MG.Driver"] + (extra_targets or [])
+    targets = mods + (extra_targets if extra_targets is not None else ["MG.Driver"])
     with _Lock():
         ok, log = lake_build(targets)
         built = {}
@@ -96,9 +96,10 @@ def check_theorems(prop: str, theorems: Dict[str, List[str]], extra_targets: Opt
                 built[m] = okm
                 if not okm:
                     res["broken"].append({"module": m, "reason": "does not compile", "log": _errs(logm)})
-            okd, logd = lake_build(["MG.Driver"] + (extra_targets or []))
+            drv = extra_targets if extra_targets is not None else ["MG.Driver"]
+            okd, logd = lake_build(drv)
             if not okd:
-                res["broken"].append({"module": "MG.Driver", "reason": "does not compile", "log": _errs(logd)})
+                res["broken"].append({"module": ",".join(drv), "reason": "does not compile", "log": _errs(logd)})
         names = []
         for m, ths in theorems.items():
             res["obligations"] += len(ths)
@@ -155,14 +156,12 @@ def _errs(log: str) -> str:
     return "\n".join(lines[:40])[:4000]
 
 
-def run_driver(lines: List[str], timeout: int = 1200) -> List[str]:
-    """Pipe statement lines through the Lean model driver; returns one observation line per input line."""
+def run_driver(lines: List[str], timeout: int = 1200, driver: str = "MG/Driver.lean") -> List[str]:
+    """Pipe statement lines through a Lean model driver; returns one observation line per input line.
+    `driver` selects the entry file: MG/Driver.lean dispatches on every tag; MG/DriverEng.lean / MG/DriverCtx.lean
+    import a single model (so that a check does not depend on models it does not use)."""
     inp = "\n".join(lines) + "\n"
-    exe = LEAN / ".lake" / "build" / "bin" / "mgdriver"
-    if exe.exists() and os.environ.get("VERIF_DRIVER_EXE", "1") == "1":
-        cmd = [str(exe)]
-    else:
-        cmd = ["lake", "env", "lean", "--run", "MG/Driver.lean"]
+    cmd = ["lake", "env", "lean", "--run", driver]
     r = subprocess.run(cmd, cwd=LEAN, input=inp, capture_output=True, text=True, timeout=timeout)
     if r.returncode != 0:
         raise RuntimeError("Lean driver failed: " + (r.stderr or r.stdout)[-2000:])
